@@ -323,6 +323,9 @@ func c17Case(run *evid.Run, i int) {
 					continue
 				}
 				got := hx.Observe(loaded)
+				if got.ID != p.State.ID {
+					run.Violate("C17/reload-id", d, wit(at), "the reloaded log is log %q, the published one was %q (%s)", got.ID, p.State.ID, at)
+				}
 				if !model.SameKeys(got.Set, p.State.Set) {
 					run.Violate("C17/reload-entries", d, wit(at), "reloaded %d entries, the state at publication had %d (%s)", len(got.Set), len(p.State.Set), at)
 					continue
